@@ -16,9 +16,16 @@ def relevant(pid, key):
 items = selftest.catalogue()
 known = set(k["key"] for k in json.load(open("/verif/known_findings.json"))["findings"] if k["status"] == "known")
 with ProcessPoolExecutor(16) as ex:
-    res = list(ex.map(selftest.run_one, [(it, "/repo") for it in items]))
+    res = list(ex.map(selftest.run_one, [(dict(it, want_counts=True), "/repo") for it in items]))
 rows = []
-for it, (iid, status, keys) in zip(items, res):
+floors = json.load(open("/verif/floors.json"))
+for it, r in zip(items, res):
+    iid, status, keys = r[0], r[1], r[2]
+    counts = r[3] if len(r) > 3 else None
+    if counts is not None and it["kind"].startswith("benign"):
+        low = sorted(ru for ru in props.RULE_TEXT if selftest.below_floor(counts, floors, ru))
+        if low:
+            status = "below-floor:" + ",".join(low)
     keys = [k for k in keys if k not in known]
     pids = [p for p in props.PROPS if any(relevant(p, k) for k in keys)]
     rules = sorted(set(k.split(":")[0] for k in keys))
